@@ -94,12 +94,14 @@ _RE_ACCEPT = re.compile(r'<<"ACCEPT", (\d+)>>')
 _RE_REJECT = re.compile(r'<<"REJECT", (\d+), (\d+), ("[^"]*"), (<<.*?>>|"[^"]*")>>')
 
 
-def judge(module, cfg_text, traces, workers=None, timeout=3600, env=None, heap="8g", tag=None, chunk=None):
+def judge(module, cfg_text, traces, workers=None, timeout=3600, env=None, heap="8g", tag=None, chunk=None, existential=False):
     """Validate a list of traces (JSON-serialisable) with trace specification spec/<module>.tla.
 
     The trace spec reads the whole list from IOEnv.TRACE_FILE, starts one behaviour per trace
     (variable tid), prints <<"ACCEPT", tid>> when a trace was consumed completely and
     <<"REJECT", tid, l, op, clauses>> when no step is enabled at record l.
+    With existential=True the trace spec is nondeterministic (several candidate explanations per record): a
+    trace is accepted as soon as ACCEPT is printed for it, and REJECT lines only describe stuck choices.
     A judge may resynchronise after a REJECT and go on, so a trace can have several REJECT lines; it is
     accepted when its end was reached without any.
     Returns (accepted: set of 0-based indices, rejected: dict index -> list of info dicts, stats)."""
@@ -125,6 +127,8 @@ def judge(module, cfg_text, traces, workers=None, timeout=3600, env=None, heap="
                         rej[i] = r2[0]
                 else:
                     rej[i] = r2.get(0, []) + [dict(l=None, op=None, clauses="TLC could not evaluate the trace to its end (malformed record?)")]
+        if existential:
+            rej = {i: v for i, v in rej.items() if i not in acc}
         accepted |= {lo + i for i in acc if i not in rej}
         for i, info in rej.items():
             rejected[lo + i] = sorted(info, key=lambda x: (x["l"] is None, x["l"]))
